@@ -77,10 +77,16 @@ type fdObs struct {
 	Pool   []int            `json:"pool"`
 	Pc     []string         `json:"pc"`
 }
+type fdRq struct {
+	S   int    `json:"s"`
+	Act string `json:"act"`
+	ID  int    `json:"id"`
+}
 type fdStep struct {
 	Op  fdOp   `json:"op"`
 	Obs fdObs  `json:"obs"`
 	Ev  []fdEv `json:"ev"` // the events emitted during the step
+	Rq  []fdRq `json:"rq"` // the requests of the servers that reached the directory during the step
 }
 
 func (o fdOp) String() string {
@@ -113,6 +119,7 @@ func fdOps(t []fdStep) []string {
 // ---- the relay in front of the directory --------------------------------------------------
 
 const (
+	fdActRegister   = 102
 	fdActUnregister = 103
 	fdActReady      = 104
 	fdBound         = 10 * time.Second
@@ -121,6 +128,7 @@ const (
 type fdPair struct {
 	a, b  gonet.Conn // a: the peer's side, b: the directory's side
 	owner string
+	relay *fdRelay
 	once  sync.Once
 	dead  int32
 
@@ -162,6 +170,17 @@ func (p *fdPair) pumpUp() { // peer -> directory
 				p.mu.Unlock()
 			}
 		}
+		if strings.HasPrefix(p.owner, "s") && h.Type == net.Call && h.Service == 1 && h.Object == 1 &&
+			(h.Action == fdActRegister || h.Action == fdActReady || h.Action == fdActUnregister) {
+			q := fdRq{Act: map[uint32]string{fdActRegister: "register", fdActReady: "ready", fdActUnregister: "unregister"}[h.Action]}
+			q.S, _ = strconv.Atoi(p.owner[1:])
+			if h.Action != fdActRegister && len(m.Payload) >= 4 {
+				q.ID = int(uint32(m.Payload[0]) | uint32(m.Payload[1])<<8 | uint32(m.Payload[2])<<16 | uint32(m.Payload[3])<<24)
+			}
+			p.relay.mu.Lock()
+			p.relay.reqs = append(p.relay.reqs, q)
+			p.relay.mu.Unlock()
+		}
 		if err := m.Write(p.b); err != nil {
 			return
 		}
@@ -193,6 +212,7 @@ type fdRelay struct {
 	mu    sync.Mutex
 	owner string
 	pairs []*fdPair
+	reqs  []fdRq // requests of the servers forwarded to the directory
 	n     int64
 }
 
@@ -214,7 +234,7 @@ func newFdRelay(path, target string) (*fdRelay, error) {
 				continue
 			}
 			r.mu.Lock()
-			p := &fdPair{a: a, b: b, owner: r.owner, held: make(chan uint32, 1), decision: make(chan string, 1), lost: make(chan struct{})}
+			p := &fdPair{a: a, b: b, owner: r.owner, relay: r, held: make(chan uint32, 1), decision: make(chan string, 1), lost: make(chan struct{})}
 			r.pairs = append(r.pairs, p)
 			r.mu.Unlock()
 			atomic.AddInt64(&r.n, 1)
@@ -325,7 +345,11 @@ type fdWorld struct {
 	dirSrv  bus.Server
 	relay   *fdRelay
 	raw     *rawSub
+	obs     bus.Session // the standing observer
+	obsDir  services.ServiceDirectoryProxy
+	obsID   int
 	nev     int
+	nrq     int
 	srv     []*fdServer
 	cl      []*fdClient
 	impls   map[int]*fdImpl
@@ -445,6 +469,13 @@ func newFdWorld(nsrv, ncl int, names []string) (*fdWorld, error) {
 		c.id = vhook.ID(c.sess)
 		w.cl = append(w.cl, c)
 	}
+	if err = w.relay.as("obs", func() error { w.obs, err = session.NewSession(w.dirAddr); return err }); err != nil {
+		return nil, fmt.Errorf("observer session: %v", err)
+	}
+	w.obsID = vhook.ID(w.obs)
+	if w.obsDir, err = services.ServiceDirectory(w.obs); err != nil {
+		return nil, fmt.Errorf("observer's directory proxy: %v", err)
+	}
 	fdMu.Lock()
 	fdCur = w
 	fdMu.Unlock()
@@ -495,6 +526,10 @@ func (w *fdWorld) close() {
 	}
 	if w.raw != nil {
 		w.raw.ep.Close()
+	}
+	if w.obs != nil {
+		o := w.obs
+		bounded(func() error { return o.Terminate() })
 	}
 	d := w.dirSrv
 	bounded(func() error { return d.Terminate() })
@@ -558,6 +593,14 @@ func ff(class, format string, a ...interface{}) *fdFail {
 	return &fdFail{"federation/" + class, fmt.Sprintf(format, a...)}
 }
 
+func allUp(n int) []bool {
+	r := make([]bool, n)
+	for i := range r {
+		r[i] = true
+	}
+	return r
+}
+
 func sortEntries(l []fdEntry) {
 	sort.Slice(l, func(i, j int) bool { return l[i].ID < l[j].ID })
 }
@@ -565,7 +608,27 @@ func sortEntries(l []fdEntry) {
 func evKey(e fdEv) string { return fmt.Sprintf("%s/%d/%s", e.K, e.ID, e.N) }
 
 // observe compares everything but the outcome of the command
-func (w *fdWorld) observe(step int, op fdOp, exp fdObs, expEv []fdEv) *fdFail {
+func (w *fdWorld) observe(step int, op fdOp, exp fdObs, expEv []fdEv, expRq []fdRq, last bool) *fdFail {
+	// what the servers asked of the directory during the step: when that differs, the SERVER left the protocol of
+	// server.go / service.go - whatever the directory shows afterwards is not the directory's doing
+	w.relay.mu.Lock()
+	rq := append([]fdRq{}, w.relay.reqs[w.nrq:]...)
+	w.nrq = len(w.relay.reqs)
+	w.relay.mu.Unlock()
+	gq, wq := make([]string, len(rq)), make([]string, len(expRq))
+	for i, q := range rq {
+		gq[i] = fmt.Sprintf("s%d:%s(%d)", q.S, q.Act, q.ID)
+	}
+	for i, q := range expRq {
+		wq[i] = fmt.Sprintf("s%d:%s(%d)", q.S, q.Act, q.ID)
+	}
+	if op.K == "srvterm" {
+		sort.Strings(gq)
+		sort.Strings(wq)
+	}
+	if strings.Join(gq, " ") != strings.Join(wq, " ") {
+		return ff("outside/protocol", "during %s the directory received [%s] from the servers, expected [%s]", op, strings.Join(gq, " "), strings.Join(wq, " "))
+	}
 	// events of the step (a call on the subscriber's connection is a barrier)
 	if err := bounded(w.raw.sync); err != nil {
 		return ff("subscriber-lost", "the subscriber's connection to the directory: %v", err)
@@ -592,89 +655,33 @@ func (w *fdWorld) observe(step int, op fdOp, exp fdObs, expEv []fdEv) *fdFail {
 	}
 	// the client sessions follow the directory: one refresh per event
 	for _, c := range w.cl {
-		dl := time.Now().Add(fdBound)
-		for {
-			fdMu.Lock()
-			n := fdStores[c.id]
-			fdMu.Unlock()
-			if n >= w.nev {
-				break
-			}
-			if time.Now().After(dl) {
-				return ff("client/list-not-refreshed", "after %s: session %d has refreshed its list %d times after %d events (%v)", op, c.i, n, w.nev, fdBound)
-			}
-			time.Sleep(100 * time.Microsecond)
+		if f := w.waitSession(fmt.Sprintf("session %d", c.i), c.id, op, fdObs{Up: allUp(len(w.srv))}); f != nil {
+			return f
 		}
 	}
-	// a fresh session: list, look-ups, proxies
-	var fresh bus.Session
-	var err error
-	if err = w.relay.as("fresh", func() error {
-		return bounded(func() error { var e error; fresh, e = session.NewSession(w.dirAddr); return e })
-	}); err != nil {
-		return ff("directory-unreachable", "after %s: a new session: %v", op, err)
+	// the standing observer session (its list follows the directory like the clients'; the connection of a server
+	// that stopped leaves its pool on the closer's goroutine) - and, after the last command, a FRESH session
+	if f := w.waitSession("the observer", w.obsID, op, exp); f != nil {
+		return f
 	}
-	defer func() { go fresh.Terminate() }()
-	var dir services.ServiceDirectoryProxy
-	var list []services.ServiceInfo
-	if err = bounded(func() error {
-		var e error
-		if dir, e = services.ServiceDirectory(fresh); e != nil {
-			return e
-		}
-		list, e = dir.Services()
-		return e
-	}); err != nil {
-		return ff("directory-unreachable", "after %s: services(): %v", op, err)
+	if f := w.look(step, op, exp, w.obs, w.obsDir, "the observer session"); f != nil {
+		return f
 	}
-	var gl []fdEntry
-	for _, i := range list {
-		if i.Name != sdName {
-			gl = append(gl, fdEntry{int(i.ServiceId), i.Name, w.srvOf(i.Endpoints)})
+	if last {
+		var fresh bus.Session
+		if err := w.relay.as("fresh", func() error {
+			return bounded(func() error { var e error; fresh, e = session.NewSession(w.dirAddr); return e })
+		}); err != nil {
+			return ff("directory-unreachable", "after %s: a new session: %v", op, err)
 		}
-	}
-	wl := append([]fdEntry{}, exp.List...)
-	sortEntries(gl)
-	sortEntries(wl)
-	if fmt.Sprint(gl) != fmt.Sprint(wl) {
-		return ff("list", "after %s the directory lists %v, expected %v ({id name server})", op, gl, wl)
-	}
-	for _, n := range w.names {
-		var info services.ServiceInfo
-		err = bounded(func() error { var e error; info, e = dir.Service(n); return e })
-		if err == errNoAnswer {
-			return ff("lookup-unanswered", "after %s: service(%s): %v", op, n, err)
+		defer func() { go fresh.Terminate() }()
+		var dir services.ServiceDirectoryProxy
+		if err := bounded(func() error { var e error; dir, e = services.ServiceDirectory(fresh); return e }); err != nil {
+			return ff("directory-unreachable", "after %s: the directory's proxy of a new session: %v", op, err)
 		}
-		var wantE *fdEntry
-		for i := range wl {
-			if wl[i].Name == n {
-				wantE = &wl[i]
-			}
+		if f := w.look(step, op, exp, fresh, dir, "a fresh session"); f != nil {
+			return f
 		}
-		switch {
-		case wantE == nil && err == nil:
-			return ff("lookup", "after %s: service(%s) finds {%d %s}, expected: not found", op, n, info.ServiceId, info.Name)
-		case wantE != nil && err != nil:
-			return ff("lookup", "after %s: service(%s) fails (%v), expected %v", op, n, err, *wantE)
-		case wantE != nil && (int(info.ServiceId) != wantE.ID || info.Name != n || w.srvOf(info.Endpoints) != wantE.Srv):
-			return ff("lookup", "after %s: service(%s) finds {%d %s server %d}, expected %v", op, n, info.ServiceId, info.Name, w.srvOf(info.Endpoints), *wantE)
-		}
-	}
-	for _, n := range w.names {
-		var r fdProxyRes
-		if bounded(func() error { r.p, r.err = fresh.Proxy(n, 1); return nil }) == errNoAnswer {
-			return ff("outside/proxy-hangs", "after %s: Proxy(%s) of a fresh session does not return within %v", op, n, tBound)
-		}
-		g := fdClassify(fresh, r, fmt.Sprintf("f%d", step))
-		e := exp.Reach[n]
-		if g.E == e.E && (g.E == "ok" && g.V == e.V || g.E != "ok" && g.W == e.W) {
-			continue
-		}
-		detail := fmt.Sprintf("after %s: Proxy(%s, 1) + Hello of a fresh session gives %v (%v), expected %v ({outcome why object})", op, n, g, r.err, e)
-		if (g.W == "notfound") != (e.W == "notfound") {
-			return &fdFail{"federation/proxy-visibility", detail}
-		}
-		return &fdFail{"federation/outside/reach", detail}
 	}
 	// what every server routes and whether it listens
 	for _, s := range w.srv {
@@ -722,11 +729,96 @@ func (w *fdWorld) observe(step int, op fdOp, exp fdObs, expEv []fdEv) *fdFail {
 			if n == exp.Pool[c.i-1] {
 				break
 			}
-			if time.Now().After(dl) {
+			// an insertion happens before Proxy returns; only a removal (the closer of a lost connection) may still be on its way
+			if n < exp.Pool[c.i-1] || time.Now().After(dl) {
 				return ff("client/pool", "after %s: session %d holds %d pooled connections to service servers, expected %d", op, c.i, n, exp.Pool[c.i-1])
 			}
 			time.Sleep(100 * time.Microsecond)
 		}
+	}
+	return nil
+}
+
+// waitSession: the session has refreshed its list once per event, and holds no connection to a server that stopped
+func (w *fdWorld) waitSession(who string, id int, op fdOp, exp fdObs) *fdFail {
+	dl := time.Now().Add(fdBound)
+	for {
+		fdMu.Lock()
+		n := fdStores[id]
+		deadPooled := ""
+		for _, s := range w.srv {
+			if !exp.Up[s.i-1] && fdPools[id][s.addr] {
+				deadPooled = s.addr
+			}
+		}
+		fdMu.Unlock()
+		if n >= w.nev && deadPooled == "" {
+			return nil
+		}
+		if time.Now().After(dl) {
+			if n < w.nev {
+				return ff("client/list-not-refreshed", "after %s: %s has refreshed its list %d times after %d events (%v)", op, who, n, w.nev, fdBound)
+			}
+			return ff("client/pool", "after %s: %s keeps its connection to the stopped server at %s", op, who, deadPooled)
+		}
+		time.Sleep(100 * time.Microsecond)
+	}
+}
+
+// look: list, look-ups and proxies as one session sees them
+func (w *fdWorld) look(step int, op fdOp, exp fdObs, sess bus.Session, dir services.ServiceDirectoryProxy, who string) *fdFail {
+	var list []services.ServiceInfo
+	if err := bounded(func() error { var e error; list, e = dir.Services(); return e }); err != nil {
+		return ff("directory-unreachable", "after %s: services() of %s: %v", op, who, err)
+	}
+	var gl []fdEntry
+	for _, i := range list {
+		if i.Name != sdName {
+			gl = append(gl, fdEntry{int(i.ServiceId), i.Name, w.srvOf(i.Endpoints)})
+		}
+	}
+	wl := append([]fdEntry{}, exp.List...)
+	sortEntries(gl)
+	sortEntries(wl)
+	if fmt.Sprint(gl) != fmt.Sprint(wl) {
+		return ff("list", "after %s the directory lists %v (%s), expected %v ({id name server})", op, gl, who, wl)
+	}
+	for _, n := range w.names {
+		var info services.ServiceInfo
+		err := bounded(func() error { var e error; info, e = dir.Service(n); return e })
+		if err == errNoAnswer {
+			return ff("lookup-unanswered", "after %s: service(%s): %v", op, n, err)
+		}
+		var wantE *fdEntry
+		for i := range wl {
+			if wl[i].Name == n {
+				wantE = &wl[i]
+			}
+		}
+		switch {
+		case wantE == nil && err == nil:
+			return ff("lookup", "after %s: service(%s) finds {%d %s}, expected: not found", op, n, info.ServiceId, info.Name)
+		case wantE != nil && err != nil:
+			return ff("lookup", "after %s: service(%s) fails (%v), expected %v", op, n, err, *wantE)
+		case wantE != nil && (int(info.ServiceId) != wantE.ID || info.Name != n || w.srvOf(info.Endpoints) != wantE.Srv):
+			return ff("lookup", "after %s: service(%s) finds {%d %s server %d}, expected %v", op, n, info.ServiceId, info.Name, w.srvOf(info.Endpoints), *wantE)
+		}
+	}
+	for _, n := range w.names {
+		var r fdProxyRes
+		if bounded(func() error { r.p, r.err = sess.Proxy(n, 1); return nil }) == errNoAnswer {
+			return ff("outside/proxy-hangs", "after %s: Proxy(%s) of %s does not return within %v", op, n, who, tBound)
+		}
+		g := fdClassify(sess, r, fmt.Sprintf("f%d", step))
+		e := exp.Reach[n]
+		if g.E == e.E && (g.E == "ok" && g.V == e.V || g.E != "ok" && g.W == e.W) {
+			continue
+		}
+		detail := fmt.Sprintf("after %s: Proxy(%s, 1) + Hello of %s gives %v (%v), expected %v ({outcome why object})", op, n, who, g, r.err, e)
+		if (g.W == "notfound") != (e.W == "notfound") {
+			return &fdFail{"federation/proxy-visibility", detail}
+		}
+		return &fdFail{"federation/outside/reach", detail}
 	}
 	return nil
 }
@@ -786,7 +878,7 @@ func nsOut(r *fdNsRes, id int) fdOut {
 	return fdOut{"err", r.err.Error(), 0}
 }
 
-func (w *fdWorld) do(step int, st fdStep, prev *fdObs) *fdFail {
+func (w *fdWorld) do(step int, st fdStep, prev *fdObs, last bool) *fdFail {
 	op, exp := st.Op, st.Obs
 	var got fdOut
 	switch op.K {
@@ -996,7 +1088,7 @@ func (w *fdWorld) do(step int, st fdStep, prev *fdObs) *fdFail {
 	default:
 		hlib.Fatal("federation: unknown op %q", op.K)
 	}
-	return w.observe(step, op, exp, st.Ev)
+	return w.observe(step, op, exp, st.Ev, st.Rq, last)
 }
 
 func replayFederation(t []fdStep) (*fdFail, int) {
@@ -1013,7 +1105,7 @@ func replayFederation(t []fdStep) (*fdFail, int) {
 	defer w.close()
 	prev := &fdObs{}
 	for i, s := range t {
-		if f := w.do(i, s, prev); f != nil {
+		if f := w.do(i, s, prev, i == len(t)-1); f != nil {
 			return f, i
 		}
 		prev = &t[i].Obs
@@ -1071,7 +1163,7 @@ func cmdFederationChild(args []string) {
 			kinds[s.Op.K]++
 		}
 		if f != nil {
-			out.Fail(f.class, f.detail, map[string]interface{}{"ops": fdOps(t), "step": at, "expected": t[at].Obs, "expected_events": t[at].Ev})
+			out.Fail(f.class, f.detail, map[string]interface{}{"ops": fdOps(t), "step": at, "expected": t[at].Obs, "expected_events": t[at].Ev, "expected_requests": t[at].Rq})
 			fails++
 			if fails >= maxFailsPerChild {
 				out.Extra("stopped_after_failures", float64(fails))
